@@ -116,7 +116,13 @@ func (m *Machine) newMapIter(om *omap) *mapIter {
 	}
 	if m.eng.MapSchedule && len(it.order) > 1 {
 		off := m.scheduleOffset(len(it.order))
-		if off > 0 {
+		if off == len(it.order) { // reversed
+			rev := make([]int, len(it.order))
+			for i, x := range it.order {
+				rev[len(rev)-1-i] = x
+			}
+			it.order = rev
+		} else if off > 0 {
 			rot := append([]int{}, it.order[off:]...)
 			rot = append(rot, it.order[:off]...)
 			it.order = rot
